@@ -234,7 +234,7 @@ def main(argv=None):
         path = os.path.join(ROOT, "replays", f"{pid}-{n:02d}.json")
         json.dump(dict(property=pid, label=lab, info=v.get("info"), shard=v["shard"], witness=v["witness"]), open(path, "w"), indent=1, default=str)
         st, txt = replay_file(path)
-        if st == "reproduced" and f"FAILED claim: {lab}" not in txt:
+        if st == "reproduced" and f"FAILED claim: {lab}" not in txt and not getattr(H, "REPLAY_ANY_CLAIM", False):
             st = "other-claim-failed"   # the replay fails a different claim than the one the solver refuted: not a confirmation
         (reproduced if st == "reproduced" else not_reproduced).append((lab, path, st, txt))
     for lab, path, st, txt in reproduced:
